@@ -11,6 +11,7 @@ S5  the property's clauses on the Rust results: scaling over six decades (Rust v
 """
 from decimal import Decimal, getcontext
 from vlib.common import *
+from vlib import auxprops
 
 getcontext().prec = 60
 PI_D = Decimal("3.14159265358979323846264338327950288419716939937510582097494")
@@ -474,12 +475,15 @@ def run(ctx):
         r = replay(ctx, binp)
         if r is not None:
             return r
-    msgs, spans = regen(ctx, ["spectrum", "efficiencies", "pm_integrand", "grid", "hom", "wrappers"])
+    msgs, spans = regen(ctx, ["spectrum", "efficiencies", "pm_integrand", "grid", "hom"])
     keys = ("phasematch", "jsa", "utils", "math", "beam", "spdc::efficiencies")
     ctx.cov["translated_spans"] = {k: v for k, v in spans.items() if k.startswith(keys)}
     for m in msgs:
         ctx.proof_failures.append(("Gen/Spectrum.v", "translator", m))
     proved = (not msgs) and prove(ctx, "C07", extra_targets=["Proofs/C07_tac.vo"])
+    # auxiliary composition (Props/C07_aux.v): the SPDC::counts_* / efficiencies methods forward to the functions modelled here
+    auxprops.prove_aux(ctx, "C07", ["wrapbase", "wrap_SPDC_counts_coincidences", "wrap_SPDC_counts_singles_signal", "wrap_SPDC_counts_singles_idler",
+                                    "wrap_SPDC_efficiencies", "wrap_efficiencies"])
     quick = ctx.tier == "quick"
     n = 4 if quick else 16
     hargs = ["c07", ctx.seed, n, 0 if quick else 1]
@@ -510,7 +514,7 @@ def run(ctx):
                        "bandwidth/power/deff; (power, deff) scaled over six decades; distinct = distinct (setup, input bits)")
     ctx.cov["clauses"] = {
         "the methods SPDC::counts_* / SPDC::efficiencies hand (self, ranges, integrator) unchanged to the functions of counts.rs / efficiencies.rs the "
-        "rate theorems are about": "proved on the generated forwarders (C07_counts_methods_forward over Gen/Wrappers.v); implementation compared bit for "
+        "rate theorems are about": "proved on the generated forwarders (C07_counts_methods_forward over Gen/W_*.v; Props/C07_aux.v, auxiliary composition); implementation compared bit for "
                                    "bit by the wrappers stage of ./check C08",
         "intensities/rates proportional to power x deff^2": "proved (generated normalisation; raw amplitudes syntactically independent: frame scan; rates = generated rendering of counts.rs with the generated correction factor and cell area dws*dwi) + Rust-vs-Rust 1e-12 over six decades; grids with unequal axis spacings",
         "efficiencies / normalised spectra / Schmidt / HOM independent of power, deff": "proved over the GENERATED definitions (Gen/Spectrum.v amplitude composed with Gen/HomSrc.v, Gen/SchmidtSrc.v via grpF's models; two sources scaled independently; normalised amplitude and intensities) + Rust-vs-Rust on every *_range accessor, sweep, hom_rate(_series), two-source (self and independent)",
